@@ -38,6 +38,7 @@ func stateJobs(quick bool) []gossipJob {
 			{P: P("S8", 1400, 3, 3, 0, 1, false), Need: []string{"LeavesSeen", "StaleDiscarded"}},
 			{P: P("S9", 170, 3, 3, 0, 1, false), Need: []string{"TruncatedDeltas"}},
 			{P: P("S10", 1400, 2, 2, 0, 0, false)},
+			{P: P("S11", 200, 3, 3, 0, 1, false), Need: []string{"TruncatedDeltas"}},
 		}
 	}
 	d := sec(240)
@@ -98,6 +99,8 @@ func init() {
 				{P: P("S7", 165, 3, 2, 0, 1, false)},
 				{P: P("S8", 1400, 3, 3, 0, 1, false), Need: []string{"ClosureDiverged"}},
 				{P: P("S9", 170, 3, 3, 0, 1, false), Need: []string{"ClosureDiverged", "TruncatedDeltas"}},
+				// a datagram exactly as large as the maximum packet size
+				{P: P("S11", 200, 3, 3, 0, 1, false), Need: []string{"ClosureDiverged", "TruncatedDeltas"}},
 				// membership: a live node that was suspected and swept by a peer is
 				// found again and its state converges like everybody else's
 				{P: P4(3, 2, 0, 0, 1, 1, false), Need: []string{"ClosureDiverged", "Unreachables"}},
